@@ -1,0 +1,45 @@
+//go:build verif
+// +build verif
+
+package overloader
+
+import "time"
+
+// The types below exist only in the verif build. They expose the two limiters
+// without the ticker goroutine so that model-based tests can drive them with
+// a manual clock.
+
+// VerifConnLimiter wraps the connection limiter.
+type VerifConnLimiter struct{ c *connLimiter }
+
+// NewVerifConnLimiter creates a connection limiter.
+func NewVerifConnLimiter(maxConn int32) *VerifConnLimiter {
+	return &VerifConnLimiter{c: newConnLimiter(maxConn)}
+}
+
+func (v *VerifConnLimiter) Take() bool       { return v.c.take() }
+func (v *VerifConnLimiter) Release()         { v.c.release() }
+func (v *VerifConnLimiter) Update(max int32) { v.c.update(max) }
+func (v *VerifConnLimiter) Now() int32       { return v.c.getNow() }
+func (v *VerifConnLimiter) Limit() int32     { return v.c.getLimit() }
+
+// VerifQPSLimiter wraps the rate limiter; Tick replaces the ticker.
+type VerifQPSLimiter struct{ q *qpsLimiter }
+
+// NewVerifQPSLimiter creates a rate limiter whose ticker never fires by itself.
+func NewVerifQPSLimiter(maxQPS int32, interval time.Duration) *VerifQPSLimiter {
+	once := maxQPS / int32(time.Second/interval)
+	if once == 0 {
+		once = 1
+	}
+	return &VerifQPSLimiter{q: &qpsLimiter{limit: maxQPS, tokens: maxQPS, interval: interval, once: once}}
+}
+
+func (v *VerifQPSLimiter) Take() bool    { return v.q.take() }
+func (v *VerifQPSLimiter) Tick()         { v.q.updateToken() }
+func (v *VerifQPSLimiter) Tokens() int32 { return v.q.tokens }
+func (v *VerifQPSLimiter) Once() int32   { return v.q.once }
+func (v *VerifQPSLimiter) Limit() int32  { return v.q.getLimit() }
+
+// UpdateLimit changes the rate limit keeping the interval.
+func (v *VerifQPSLimiter) UpdateLimit(maxQPS int32) { v.q.update(maxQPS, v.q.interval) }
